@@ -27,6 +27,7 @@ func main() {
 	unroll := flag.Int("unroll", 0, "loop unroll (debug dump)")
 	max := flag.Int("max", 50, "max paths to print (debug dump)")
 	list := flag.Bool("list", false, "list registered properties")
+	startAt := flag.String("start", "", "debug dump: start the region after the first call whose callee name contains this string")
 	flag.Parse()
 	if *list {
 		for _, id := range rules.Props() {
@@ -35,7 +36,7 @@ func main() {
 		return
 	}
 	if *dump != "" {
-		debugDump(*repo, *dump, *inline, *unroll, *max)
+		debugDump(*repo, *dump, *inline, *unroll, *max, *startAt)
 		return
 	}
 	if *prop == "" {
@@ -143,7 +144,7 @@ func uniq(in []string) []string {
 	return out
 }
 
-func debugDump(repo, name, inline string, unroll, max int) {
+func debugDump(repo, name, inline string, unroll, max int, startAt string) {
 	p, err := core.Load(repo, core.VDefault)
 	if err != nil {
 		fmt.Fprintln(os.Stderr, err)
@@ -156,7 +157,19 @@ func debugDump(repo, name, inline string, unroll, max int) {
 	}
 	x := core.NewExplorer(p)
 	n := 0
-	total, err := x.Paths(fn, core.Opts{Unroll: unroll, NonNilOnNilErr: true,
+	var start ssa.Instruction
+	if startAt != "" {
+		for _, b := range fn.Blocks {
+			for _, in := range b.Instrs {
+				if c, ok := in.(*ssa.Call); ok && start == nil {
+					if f := c.Call.StaticCallee(); f != nil && strings.Contains(f.String(), startAt) {
+						start = in
+					}
+				}
+			}
+		}
+	}
+	total, err := x.Paths(fn, core.Opts{Unroll: unroll, NonNilOnNilErr: true, Start: start,
 		Inline: func(c *ssa.Function, d int) bool { return inl[core.FuncName(c)] || inl["*"] }}, func(path *core.Path) {
 		n++
 		if n <= max {
